@@ -923,6 +923,52 @@ def rule_atomic_dir(ctx):
                       "key store directory %s is not ensured" % "/".join(p[:-1]), "directory ensured")
 
 
+def read_modes_exec(repo, cls):
+    """ConfigManager._load_path executed for a file with a known extension and for one without (format detection by
+    trial parse): every open() that happens on the way is recorded with its path and mode
+    -> [(scenario, [(path, mode)])] or None when the executions cannot be followed"""
+    from ..absint import Interp, _Raise, NeedAtom, Budget, DomainGrew, C_NONE
+    import posixpath
+    ev = Evaluator(repo, cls.module, cls)
+    k, e = repo.class_const(cls, "MAP_EXT")
+    a = alts(ev.sub(class_scope=cls).ev(e)) if e is not None else None
+    exts = [x for x in (a[0] if a and isinstance(a[0], dict) else {}) if x]
+    if not exts:
+        return None
+    out = []
+    for label, path in [("a file named *.%s" % exts[0], "/d/config.%s" % exts[0]), ("a file without an extension", "/d/config")]:
+        opened = []
+
+        def open_(itp, e_, args, kwargs, env, depth):
+            pth = args[0] if args else kwargs.get("file")
+            mode = args[1] if len(args) > 1 else kwargs.get("mode", ("c", "r"))
+            mode = itp.force(mode)
+            opened.append((pth[1] if pth is not None and pth[0] == "c" else "?", mode[1] if mode[0] == "c" else None))
+            return ("ext", "file", [])
+
+        def extcall(itp, lab, args, kwargs, env, depth, e_):
+            leaf = lab.strip(".()").split(".")[-1]
+            cs = [x for x in args if x[0] == "c" and isinstance(x[1], str)]
+            if leaf == "isfile" and len(cs) == 1 == len(args):
+                return ("c", cs[0][1] == path)
+            if leaf == "splitext" and len(cs) == 1 == len(args):
+                return ("c", tuple(posixpath.splitext(cs[0][1])))
+            return None
+        hooks = {"extcall": extcall, "builtin:open": open_, "fn:load_data": lambda *a_: ("ext", "CONFIG", []),
+                 "fn:reverse": lambda *a_: ("ext", "datadict", [])}
+        it = Interp(repo, {}, {}, hooks=hooks)
+        try:
+            o = it.construct(cls, [], {}, {"@module": cls.module, "@owner": None}, 0, None)
+            try:
+                it.method_call(o, "_load_path", [("c", path)], {}, {"@module": cls.module, "@owner": cls}, 0, None)
+            except _Raise:
+                pass
+        except (NeedAtom, Budget, DomainGrew):
+            return None
+        out.append((label, opened))
+    return out
+
+
 def rule_mode(ctx):
     repo = ctx.repo
     cls = repo.cls(MGR, "ConfigManager")
@@ -950,7 +996,16 @@ def rule_mode(ctx):
             ctx.check("C19.mode", not binary, w, oc, "every format produces str but the destination is opened in binary mode %s: save(dest=...) raises TypeError" % modes, "text written to a text-mode file")
         else:
             ctx.hold("C19.mode", w, oc, "serialised type %s" % sorted(ts))
-    # read side: _load_path / guess_type read text
+    # read side: whatever is opened on the way from _load_path to the parsed text is opened as text - decided by
+    # executing _load_path for a file with and one without a known extension
+    rm = read_modes_exec(repo, cls)
+    if rm is not None and all(opened for _l, opened in rm):
+        lp = repo.method(MGR, "ConfigManager", "_load_path")
+        for label, opened in rm:
+            bad = ["%s opened with mode %r" % (p_, m_) for p_, m_ in opened if m_ is None or "b" in m_ or not m_.startswith("r")]
+            ctx.check("C19.mode", not bad, where(MGR, "ConfigManager._load_path", lp.lineno), "loading %s" % label,
+                      "config is parsed as text but read in binary mode (%s)" % "; ".join(bad), "read as text (%d open call(s))" % len(opened))
+        return
     for name in ("_load_path", "guess_type"):
         fn = repo.method(MGR, "ConfigManager", name)
         for oc in open_calls(fn):
